@@ -389,8 +389,8 @@ def run_file(rc, cfg, actors_ops):
                     pos = i + len(c[1])
             # the write discipline still holds for every call that was made
             for c in ff.calls:
-                if c[0] in ("write", "write!") and (not c[1].endswith(b"\n") or c[1].count(b"\n") != 1):
-                    raise Violation("split_write", "a write call did not carry exactly one complete line: %r" % c[1][:80])
+                if c[0] in ("write", "write!") and not c[1].endswith(b"\n"):
+                    raise Violation("split_write", "a write call did not carry whole lines only: %r" % c[1][:80])
             continue
         if parts[-1] != b"":
             raise Violation("torn_line", "file %s does not end with a newline: %r" % (ff.name, parts[-1][:80]))
@@ -398,8 +398,8 @@ def run_file(rc, cfg, actors_ops):
         for raw in parts[:-1]:
             try:
                 d = json.loads(raw.decode("utf-8"))
-                if d.get("message_type") == "eliot:destination_failure":
-                    continue          # report about a failed write to the other file
+                if str(d.get("message_type", "")).startswith("eliot:"):
+                    continue          # eliot's own: a report about a failed write to the other file, a notice
                 n = d["nid"]
             except Exception:  # noqa
                 raise Violation("torn_line", "a line of %s is not one JSON message: %r" % (ff.name, raw[:120]))
@@ -411,8 +411,8 @@ def run_file(rc, cfg, actors_ops):
                 raise Violation("lost" if n not in seen else "duplicated",
                                 "message nid=%d appears %d times in file %s" % (n, seen.get(n, 0), ff.name))
         for c in ff.calls:
-            if c[0] == "write" and (not c[1].endswith(b"\n") or c[1].count(b"\n") != 1):
-                raise Violation("split_write", "a write call did not carry exactly one complete line: %r" % c[1][:80])
+            if c[0] == "write" and not c[1].endswith(b"\n"):
+                raise Violation("split_write", "a write call did not carry whole lines only: %r" % c[1][:80])
     return {"ops": len(offered)}
 
 
